@@ -438,17 +438,18 @@ def p_c12(prop, tier):
 
 def p_c13(prop, tier):
     if tier == "quick":
-        jobs = [Job("eng_bigint", c, pr, shards=n, budget=B(12)) for (c, pr, n) in [("default", "rel", 3), ("alloc", "rel", 3), ("default", "chk", 2), ("alloc", "chk", 2)]]
+        jobs = [Job("eng_bigint", c, pr, shards=n, budget=B(12), args=["--sweep-depth", "4"]) for (c, pr, n) in [("default", "rel", 3), ("alloc", "rel", 3), ("default", "chk", 2), ("alloc", "chk", 2)]]
         mcells = [("default", "rel", "miri-sb"), ("default", "chk", "miri-tb"), ("alloc", "rel", "miri-sb")]
         jobs += [Job("eng_bigint", c, p, instr=i, shards=2, budget=3000, args=["--max-evals", str(int(4 * common.budget_scale())), "--history-ops", "150"], timeout=1500) for (c, p, i) in mcells]
     else:
-        jobs = [Job("eng_bigint", c, pr, shards=n, budget=B(120)) for (c, pr, n) in [("default", "rel", 4), ("alloc", "rel", 4), ("compact", "rel", 2), ("nostd+compact", "rel", 2), ("default", "chk", 4), ("alloc", "chk", 4)]]
+        jobs = [Job("eng_bigint", c, pr, shards=n, budget=B(120), args=["--sweep-depth", "5"]) for (c, pr, n) in [("default", "rel", 4), ("alloc", "rel", 4), ("compact", "rel", 2), ("nostd+compact", "rel", 2), ("default", "chk", 4), ("alloc", "chk", 4)]]
         mcells = [(c, p, i) for c in ("default", "alloc") for p in ("rel", "chk") for i in ("miri-sb", "miri-tb")]
         jobs += [Job("eng_bigint", c, p, instr=i, shards=4, budget=3000, args=["--max-evals", str(int(40 * common.budget_scale())), "--history-ops", "200"], timeout=3000) for (c, p, i) in mcells]
         # valgrind memcheck on the optimised binary: use of never-written slots shows as "uninitialised value" there
         jobs += [Job("eng_bigint", c, "rel", instr="valgrind", shards=3, budget=B(60), timeout=3000) for c in ("default", "alloc")]
     rule = ("operation histories (20..400 operations each, phases that fill to the capacity, hover there and drain) over the safe API of the vector: new / from_u64 / try_from, try_push, pop, try_extend (to exactly 62 and to 63), "
-            "try_resize (grow / shrink / same / beyond capacity), normalize, add_small, mul_small (with carries at capacity), clone, ==/cmp against other vectors, hi64, indexed writes; after every operation "
+            "try_resize (grow / shrink / same / beyond capacity), normalize, add_small, mul_small (with carries at capacity), clone, ==/cmp against other vectors, hi64, indexed writes; "
+            "plus a small-scope exhaustive part: every sequence of 4 (quick) / 5 (thorough) operations over a 13-letter alphabet of capacity-relevant operations from 8 start states at and next to the capacity; after every operation "
             "length, contents (through Deref), is_empty, capacity and return value are compared with an executable model (a plain sequence with capacity 62 for the stack vector, unbounded for the heap vector); "
             "a failed push/extend/resize must change nothing. The same engine with the same model runs under Miri (Stacked + Tree Borrows: reads of never-written slots, out-of-range writes are reported there) and, in thorough, under valgrind memcheck. "
             "Non-trivial/distinct = distinct history (hash of the operation trace).")
